@@ -239,3 +239,35 @@ func (u *Unit) ghostKey(x Val) Term {
 	}
 	return u.boxIface(u.termOf(x), x.Typ)
 }
+
+// evalLoopClause evaluates a loop invariant. A clause that names a local variable the function no
+// longer has does not apply any more (the loop was rewritten): it is dropped - neither assumed nor
+// claimed - and the unit is marked so that nothing is reported from it as a violation unless a
+// failing input is actually reproduced on the real code.
+func (u *Unit) evalLoopClause(e *SExpr, env *Env) (t Term, ok bool) {
+	defer func() {
+		if r := recover(); r != nil {
+			if se, is := r.(specError); is {
+				u.dropped = append(u.dropped, e.String()+": "+se.msg)
+				t, ok = tTrue, false
+				return
+			}
+			panic(r)
+		}
+	}()
+	return u.evalClause(e, env), true
+}
+
+func (u *Unit) evalLoopMeasure(e *SExpr, env *Env) (t Term, ok bool) {
+	defer func() {
+		if r := recover(); r != nil {
+			if se, is := r.(specError); is {
+				u.dropped = append(u.dropped, e.String()+": "+se.msg)
+				ok = false
+				return
+			}
+			panic(r)
+		}
+	}()
+	return u.evalInt(e, env), true
+}
